@@ -353,9 +353,21 @@ def search_space_not_wider_than_matrix(ctx, rule='rayleigh-ritz-basis-fits-the-m
     Rayleigh-Ritz step is preceded, on every path from the loop condition, by the restart test `size() > maximal size`
     (a basis that outgrew the maximum is collapsed before it is used)."""
     from . import paths
+    from .blockscan import _Quiet
     bases = [f for f in ctx.F.concrete() if f.cls == 'Spectra::JDSymEigsBase' and f.cfg]
     if not bases:
         raise AnalysisBroken('JDSymEigsBase is not instantiated')
+    # (0) since fix F34 the extension itself keeps the basis within n columns: it appends only the numerical range of the block
+    # projected against the basis (rank <= n - size).  Then neither (1) nor (2) is a necessary condition any more -- replayed: with
+    # the setter unclamped (maximum 2n) or the restart test moved behind the correction, 200 + 26 solves stay correct -- and
+    # demanding them would raise alarms on behaviour-preserving edits.  They are demanded when the extension is NOT rank revealing.
+    q = _Quiet(ctx)
+    new_directions_are_independent(q)
+    if q.obl and all(o['ok'] for o in q.obl):
+        ctx.check(True, rule, 'SearchSpace::extend_basis/only-independent-directions', q.obl[0]['where'],
+                  'the extension appends only directions independent of the current basis (%s): the basis never has more than n columns, whatever the configured '
+                  'maximum and wherever the restart test sits' % q.obl[0]['detail'])
+        return
     recs = sorted(set(f.record for f in bases))
     n = 0
     for rec in recs[:2]:
@@ -563,6 +575,100 @@ def default_sizes_admissible(ctx, rule='constructed-search-space-sizes-admissibl
                   if not bad else '; '.join(bad))
 
 
+RANK_REVEALING = ('Eigen::ColPivHouseholderQR', 'Eigen::FullPivHouseholderQR', 'Eigen::CompleteOrthogonalDecomposition', 'Eigen::JacobiSVD', 'Eigen::BDCSVD')
+
+
+def new_directions_are_independent(ctx, rule='search-space-basis-orthonormal'):
+    """The correction block handed to the search space can be rank deficient after projection against the current basis: a
+    correction computed from the rounding-level residual of an already exact pair lies in the search space, and corrections of a
+    structured matrix started from unit vectors are linearly dependent (the 1-D Laplacian with the default start: rank 1 to 4 of
+    6).  A plain Householder QR returns, for the missing directions, arbitrary orthonormal columns that were never projected
+    against the basis; the Rayleigh-Ritz step then has a null vector V s = 0: a zero-norm Ritz vector with zero residual that
+    passes the convergence test (Successful with eigenvalues 1e-16 for a positive definite matrix).  So the block that is
+    appended must come from a RANK-REVEALING factorization truncated to its numerical rank."""
+    fns = [f for f in ctx.F.concrete() if f.cls == 'Spectra::SearchSpace' and f.cfg]
+    n = 0
+    seen = set()
+    for g in fns:
+        if g.mangled in seen:
+            continue
+        for c in g.walk():
+            if not (c['k'] == 'CXXMemberCallExpr' and c.get('callee') == 'append_new_vectors_to_basis'):
+                continue
+            seen.add(g.mangled)
+            n += 1
+            a = g.strip(g.call_args(c)[0])
+            ok, why = False, 'the appended block is `%s`' % g.s(a)[:40]
+            if a is not None and a['k'] == 'DeclRefExpr' and 'var' in a and a['var'] not in g.params:
+                init = [d['init'] for x in g.walk() if x['k'] == 'DeclStmt' for d in x['decls'] if d.get('var') == a['var'] and 'init' in d]
+                if init:
+                    t = show(sym(g, init[0], inline=False))
+                    qrs = [g.locals[y['var']] for y in g.walk(init[0]) if y['k'] == 'DeclRefExpr' and 'var' in y and g.locals[y['var']]['type'].startswith(RANK_REVEALING)]
+                    if qrs and 'householderQ' in t or (qrs and ('matrixU' in t or 'matrixQ' in t)):
+                        # truncated to the rank of that factorization
+                        rk = [d for x in g.walk() if x['k'] == 'DeclStmt' for d in x['decls'] if 'init' in d and show(sym(g, d['init'], inline=False)).startswith('rank(')]
+                        names = [g.locals[d['var']]['name'] for d in rk]
+                        if any(nm in t for nm in names) or 'rank(' in t:
+                            ok, why = True, 'the appended block is the leading rank() columns of the orthogonal factor of a %s' % qrs[0]['type'].split('<')[0]
+                        else:
+                            why = 'the orthogonal factor of the pivoted factorization is not truncated to its rank'
+                    else:
+                        why = 'the appended block `%s` does not come from a rank-revealing factorization' % t[:60]
+            elif a is not None and a['k'] == 'DeclRefExpr' and a.get('var') in g.params:
+                why = 'the caller\'s block `%s` is appended as it is and completed by a plain QR' % g.locals[a['var']]['name']
+            ctx.check(ok, rule, 'SearchSpace::%s/new-directions' % g.name, g.qname, why if ok else
+                      why + ': corrections that lie in the current search space or depend on each other are replaced by arbitrary orthonormal columns that are not orthogonal to the basis; '
+                      'the small problem then has solutions with V s = 0 -- zero-norm vectors with zero residual, reported as converged')
+    if n < 1:
+        raise AnalysisBroken('no caller of append_new_vectors_to_basis found')
+
+
+def counts_within_available_pairs(ctx, rule='counts-clamped-by-available-pairs'):
+    """The number of Ritz pairs is the current size of the search space, which can be below the configured correction size, the
+    initial size or nev (small guesses, explicit sizes, directions dropped as dependent).  Every place that takes the first k
+    pairs must clamp k by what exists: the correction loop by the number of residual columns, the restart by the number of Ritz
+    vectors, and convergence of nev pairs presupposes that nev pairs exist."""
+    n = 0
+    # (a) corrections
+    for fn in [f for f in ctx.F.concrete() if f.name == 'calculate_correction_vector' and f.cfg and (f.cls or '').startswith('Spectra::')][:2]:
+        loops = [lp for lp in fn.walk() if lp['k'] == 'ForStmt']
+        probs = []
+        for lp in loops:
+            c = sym(fn, lp['cond'])
+            if not (c[0] == '<' and 'min' in show(c[2]) and ('cols' in show(c[2]) or 'size' in show(c[2]))):
+                probs.append('the correction loop runs to %s' % show(sym(fn, lp['cond'], inline=False)[2]))
+        n += 1
+        ctx.check(bool(loops) and not probs, rule, '%s::calculate_correction_vector' % fn.cls.replace('Spectra::', ''), fn.qname,
+                  'the number of corrections is min(correction size, number of residual columns)' if not probs and loops else
+                  '; '.join(probs or ['no loop']) + ': with fewer Ritz pairs than the correction size (a small initial space, set_correction_size) the loop reads residual columns that do not exist')
+    # (b) restart
+    for fn in [f for f in ctx.F.concrete() if f.cls == 'Spectra::SearchSpace' and f.name == 'restart' and f.cfg][:2]:
+        pn = fn.locals[fn.params[1]]['name']
+        clamps = [x for x in fn.walk() if x['k'] == 'BinaryOperator' and x.get('op') == '=' and sym(fn, x['c'][0], inline=False) == ('P', pn) and
+                  'min' in show(sym(fn, x['c'][1], inline=False)) and 'cols' in show(sym(fn, x['c'][1], inline=False))]
+        uses = [x for x in fn.walk() if x['k'] == 'CXXMemberCallExpr' and x.get('callee') == 'leftCols']
+        from . import paths
+        ok = bool(uses) and all(
+            ('min' in show(sym(fn, fn.call_args(u)[0], inline=False))) or
+            (clamps and paths.dominated_by(fn, fn.pos_of(u), lambda n_: n_['id'] == clamps[0]['id'])) for u in uses)
+        n += 1
+        ctx.check(ok, rule, 'SearchSpace::restart', fn.qname,
+                  'the restart size is clamped by the number of Ritz vectors before it is used' if ok else
+                  'leftCols(%s) is taken of the Ritz vectors without clamping: a restart with fewer Ritz pairs than the initial size reads past them' % pn)
+    # (c) convergence presupposes nev pairs
+    for fn in [f for f in ctx.F.concrete() if f.cls == 'Spectra::RitzPairs' and f.name == 'check_convergence' and f.cfg][:2]:
+        rets = [sym(fn, r['value'], inline=False) for r in fn.walk() if r['k'] == 'ReturnStmt']
+        pn = [fn.locals[v]['name'] for v in fn.params]
+        inits = [sym(fn, d['init'], inline=False) for x in fn.walk() if x['k'] == 'DeclStmt' for d in x['decls'] if 'init' in d and rets and rets[0] == ('L', fn.locals[d['var']]['name'])]
+        ok = bool(inits) and any(t[0] in ('<=', '<', '>=', '>') and any(pn[1] in show(u) for u in t[1:]) and any('size' in show(u) or 'cols' in show(u) for u in t[1:]) for t in inits)
+        n += 1
+        ctx.check(ok, rule, 'RitzPairs::check_convergence', fn.qname,
+                  'all-converged starts from `number of pairs >= nev`' if ok else
+                  'the verdict starts from `%s`: with fewer pairs than nev the loop over the existing pairs leaves it true and Successful is reported with fewer than nev pairs' % [show(t) for t in inits])
+    if n < 3:
+        raise AnalysisBroken('only %d count sites analysed' % n)
+
+
 def run(ctx):
     from . import hygiene
     hygiene.noalias_destination_not_in_product(ctx, scope=lambda fn: fn.cls in ('Spectra::SearchSpace', 'Spectra::RitzPairs', 'Spectra::JDSymEigsBase', 'Spectra::DavidsonSymEigsSolver'), min_instances=1)
@@ -571,5 +677,7 @@ def run(ctx):
     correction_guard(ctx)
     status_assigned(ctx)
     basis_orthonormal(ctx)
+    new_directions_are_independent(ctx)
+    counts_within_available_pairs(ctx)
     search_space_not_wider_than_matrix(ctx)
     default_sizes_admissible(ctx)
